@@ -802,8 +802,6 @@ class EventModel:
 def install(reg):
     reg.plug(GraphPlugin())
     reg.plug(AsyncioPlugin())
-    try:
-        from . import libmodels2
-        libmodels2.install(reg)
-    except ImportError:
-        pass
+    from . import libmodels2, libmodels3
+    libmodels2.install(reg)
+    libmodels3.install(reg)
